@@ -520,6 +520,29 @@ def _copy_propagate(fn):
     return n_done
 
 
+class _GetattrConst(ast.NodeTransformer):
+    """`getattr(X, "name")` with a literal identifier is `X.name`"""
+    n = 0
+
+    def visit_Call(self, node):
+        self.generic_visit(node)
+        if isinstance(node.func, ast.Name) and node.func.id == "getattr" and len(node.args) == 2 and not node.keywords and \
+                isinstance(node.args[1], ast.Constant) and isinstance(node.args[1].value, str) and node.args[1].value.isidentifier() \
+                and not node.args[1].value.startswith("__"):
+            self.n += 1
+            return ast.copy_location(ast.Attribute(value=node.args[0], attr=node.args[1].value, ctx=ast.Load()), node)
+        return node
+
+
+def _getattr_const(fn):
+    t = _GetattrConst()
+    for i, st in enumerate(list(fn.body)):
+        fn.body[i] = t.visit(st)
+    if t.n:
+        ast.fix_missing_locations(fn)
+    return t.n
+
+
 def _with_suppress(fn):
     """`with contextlib.suppress(E1, E2): BODY` is `try: BODY except (E1, E2): pass` (the documented equivalence; only for the
     single-item form without `as`). Returns the number of rewrites."""
@@ -672,6 +695,7 @@ class Repo:
             n += TI.normalise_function(f.node, kl.get(q, set()))
             n += _with_from_acquire(f.node)
             n += _with_suppress(f.node)
+            n += _getattr_const(f.node)
             n += _copy_propagate(f.node)
             n += _merge_destructuring(f.node)
             n += _with_closing_self(f.node)
